@@ -2,7 +2,7 @@
     memory error, nodes migrate between the lists without being freed or copied), every history is safe,
     Drop frees every cell. *)
 From VF Require Import Base Lru Arc BaseFacts LruFacts Counts PrimFacts Tactics ArcFacts
-  Heap HeapArcDef HeapFacts HeapOps HeapRun HeapPrim HeapFrame HeapMulti HeapRefine.
+  Iter CacheStep Heap HeapIterDef HeapArcDef HeapFacts HeapOps HeapRun HeapPrim HeapFrame HeapMulti HeapRefine HeapIter.
 From Coq Require Import List Arith Lia Permutation.
 Import ListNotations.
 Local Open Scope nat_scope.
@@ -420,7 +420,48 @@ Proof.
   exists h4. split; [reflexivity|]. intros a. apply (fam_tight _ _ _ Hf4). intros [].
 Qed.
 
-Definition la_step (s : arc) (o : aop) : res (arc * hout) :=
+(** ** the iterators over one of the four lists *)
+Definition aop_ok (o : aop) : Prop :=
+  match o with AIter _ kd _ _ pb => ik_mut kd = true -> pb = [] | _ => True end.
+
+Theorem ha_iter_refines h s ls i kd pre pa pb ql pl :
+  RA h s ls [] -> (ik_mut kd = true -> pb = []) ->
+  ha_list s i = Some ql -> CacheStep.alist ls i = Some pl ->
+  exists h', h_iter_script h ql kd pre pa pb = HOk (h', fst (iter_script kd pre pa pb (items pl))) /\
+             RA h' s (CacheStep.awith_list ls i (with_items pl (snd (iter_script kd pre pa pb (items pl))))) [].
+Proof.
+  intros (l1 & g1 & l2 & g2 & Hf & (E1 & C1) & (E2 & C2) & (E3 & C3) & (E4 & C4) & Es & Ep) Hmut Hq Hp.
+  unfold ha_list in Hq. unfold CacheStep.alist in Hp. unfold CacheStep.awith_list.
+  destruct (Z.eqb i 0).
+  - inversion Hq; inversion Hp; subst ql pl.
+    destruct (fam_iter_script h [] (ha_t1 s) l1 [(ha_b1 s, g1); (ha_t2 s, l2); (ha_b2 s, g2)] [] kd pre pa pb Hf Hmut) as (h' & l' & E & Hf' & He & _).
+    rewrite E1 in E, He. exists h'. split; [exact E|].
+    exists l', g1, l2, g2. split; [exact Hf'|]. repeat split; assumption.
+  - destruct (Z.eqb i 1).
+    + inversion Hq; inversion Hp; subst ql pl.
+      destruct (fam_iter_script h [(ha_t1 s, l1)] (ha_b1 s) g1 [(ha_t2 s, l2); (ha_b2 s, g2)] [] kd pre pa pb Hf Hmut) as (h' & l' & E & Hf' & He & _).
+      rewrite E2 in E, He. exists h'. split; [exact E|].
+      exists l1, l', l2, g2. split; [exact Hf'|]. repeat split; assumption.
+    + destruct (Z.eqb i 2).
+      * inversion Hq; inversion Hp; subst ql pl.
+        destruct (fam_iter_script h [(ha_t1 s, l1); (ha_b1 s, g1)] (ha_t2 s) l2 [(ha_b2 s, g2)] [] kd pre pa pb Hf Hmut) as (h' & l' & E & Hf' & He & _).
+        rewrite E3 in E, He. exists h'. split; [exact E|].
+        exists l1, g1, l', g2. split; [exact Hf'|]. repeat split; assumption.
+      * destruct (Z.eqb i 3); [|discriminate].
+        inversion Hq; inversion Hp; subst ql pl.
+        destruct (fam_iter_script h [(ha_t1 s, l1); (ha_b1 s, g1); (ha_t2 s, l2)] (ha_b2 s) g2 [] [] kd pre pa pb Hf Hmut) as (h' & l' & E & Hf' & He & _).
+        rewrite E4 in E, He. exists h'. split; [exact E|].
+        exists l1, g1, l2, l'. split; [exact Hf'|]. repeat split; assumption.
+Qed.
+
+Lemma ha_list_some s (ls : arc) i : ha_list s i = None <-> CacheStep.alist ls i = None.
+Proof.
+  unfold ha_list, CacheStep.alist.
+  destruct (Z.eqb i 0); [split; discriminate|]. destruct (Z.eqb i 1); [split; discriminate|].
+  destruct (Z.eqb i 2); [split; discriminate|]. destruct (Z.eqb i 3); [split; discriminate|]. tauto.
+Qed.
+
+Definition la_step (s : arc) (o : HeapArcDef.aop) : res (arc * hout) :=
   match o with
   | APut k v => do (s1, r) <- aput s k v; Ok (s1, OPut r)
   | AGetMut k w => do (s1, r) <- aget_mut s k w; Ok (s1, OVal r)
@@ -429,13 +470,19 @@ Definition la_step (s : arc) (o : aop) : res (arc * hout) :=
   | AContains k => Ok (s, OBool (acontains s k))
   | ARemove k => Ok (fst (aremove s k), OVal (snd (aremove s k)))
   | APurge => Ok (apurge s, OUnit)
+  | HeapArcDef.AIter i kd pre pa pb =>
+    match CacheStep.alist s i with
+    | Some pl => Ok (CacheStep.awith_list s i (with_items pl (snd (iter_script kd pre pa pb (items pl)))),
+                     OIter kd (fst (iter_script kd pre pa pb (items pl))))
+    | None => Ok (s, OUnit)
+    end
   end.
 
 Theorem arc_step_refines h s ls o :
-  RA h s ls [] -> arc_inv ls ->
+  RA h s ls [] -> arc_inv ls -> aop_ok o ->
   exists h' s' ls' r, ha_step h s o = HOk (h', s', r) /\ la_step ls o = Ok (ls', r) /\ RA h' s' ls' [] /\ arc_inv ls'.
 Proof.
-  intros HR Hinv. destruct o as [k v|k w|k|k w|k|k|]; cbn [ha_step la_step].
+  intros HR Hinv Hok. destruct o as [k v|k w|k|k w|k|k| |i kd pre pa pb]; cbn [ha_step la_step].
   - destruct (ha_put_refines h s ls k v HR Hinv) as (h' & s' & ls' & r & -> & E & HR').
     destruct (aput_ok ls k v Hinv) as (s2 & r2 & E2 & Hinv2 & _). rewrite E in *. inversion E2; subst.
     cbn [hbind bind]. eauto 10.
@@ -450,29 +497,39 @@ Proof.
     destruct (aremove_ok ls k Hinv) as (Hinv2 & _). eauto 10.
   - destruct (ha_purge_refines h s ls HR) as (h' & s' & -> & HR'). cbn [hbind].
     destruct (apurge_ok ls Hinv) as (Hinv2 & _). eauto 10.
+  - destruct (CacheStep.alist ls i) as [pl|] eqn:Ep.
+    + destruct (ha_list s i) as [ql|] eqn:Eq; [|apply (ha_list_some s ls i) in Eq; congruence].
+      destruct (ha_iter_refines h s ls i kd pre pa pb ql pl HR Hok Eq Ep) as (h' & -> & HR'). cbn [hbind].
+      destruct (awith_list_inv ls i pl (with_items pl (snd (iter_script kd pre pa pb (items pl)))) Hinv Ep) as (Hinv2 & _);
+        [cbn [items with_items]; apply keys_iter_script|reflexivity|]. eauto 10.
+    + apply (ha_list_some s ls i) in Ep. rewrite Ep. eauto 10.
 Qed.
 
-Fixpoint la_run (s : arc) (os : list aop) : res (arc * list hout) :=
+Fixpoint la_run (s : arc) (os : list HeapArcDef.aop) : res (arc * list hout) :=
   match os with
   | [] => Ok (s, [])
   | o :: rest => do (s1, r) <- la_step s o; do (s2, rs) <- la_run s1 rest; Ok (s2, r :: rs)
   end.
 
+Lemma arc_run_refines : forall os h s ls, RA h s ls [] -> arc_inv ls -> Forall aop_ok os ->
+            exists h1 s1 ls1 outs, ha_run h s os = HOk (h1, s1, outs) /\ la_run ls os = Ok (ls1, outs) /\ RA h1 s1 ls1 [].
+Proof.
+ induction os as [|o rest IH]; intros h s ls HR Hinv Hok; [cbn; eauto 10|].
+    cbn [ha_run la_run]. inversion Hok as [|? ? Ho Hrest]; subst.
+    destruct (arc_step_refines h s ls o HR Hinv Ho) as (h1 & s1 & ls1 & r & -> & -> & HR1 & Hinv1). cbn [hbind bind].
+    destruct (IH h1 s1 ls1 HR1 Hinv1 Hrest) as (h2 & s2 & ls2 & outs & -> & -> & HR2). cbn [hbind bind]. eauto 10.
+Qed.
+
 Theorem arc_history_safe size os :
-  1 <= size ->
+  1 <= size -> Forall aop_ok os ->
   exists h s ls outs h',
     ha_run (fst (ha_new heap0 size)) (snd (ha_new heap0 size)) os = HOk (h, s, outs) /\
     la_run (arc_new size) os = Ok (ls, outs) /\ RA h s ls [] /\
     ha_drop h s = HOk h' /\ (forall a, cells h' a = Free).
 Proof.
-  intros H1.
-  assert (G : forall os h s ls, RA h s ls [] -> arc_inv ls ->
-            exists h1 s1 ls1 outs, ha_run h s os = HOk (h1, s1, outs) /\ la_run ls os = Ok (ls1, outs) /\ RA h1 s1 ls1 []).
-  { clear. induction os as [|o rest IH]; intros h s ls HR Hinv; [cbn; eauto 10|].
-    cbn [ha_run la_run].
-    destruct (arc_step_refines h s ls o HR Hinv) as (h1 & s1 & ls1 & r & -> & -> & HR1 & Hinv1). cbn [hbind bind].
-    destruct (IH h1 s1 ls1 HR1 Hinv1) as (h2 & s2 & ls2 & outs & -> & -> & HR2). cbn [hbind bind]. eauto 10. }
-  destruct (G os _ _ _ (ha_new_refines size) (arc_new_inv size H1)) as (h & s & ls & outs & E1 & E2 & HR).
+  intros H1 Hok.
+  pose proof arc_run_refines as G.
+  destruct (G os _ _ _ (ha_new_refines size) (arc_new_inv size H1) Hok) as (h & s & ls & outs & E1 & E2 & HR).
   destruct (ha_drop_ok h s ls HR) as (h' & Ed & Hall).
   exists h, s, ls, outs, h'. auto.
 Qed.
